@@ -255,12 +255,9 @@ pub fn run(ctx: &mut Ctx) {
     let max_entries = if quick { 2 } else { 3 };
     for k in 1..=max_entries {
         for combo in combinations(all_entries.len(), k) {
-            // thorough, 3 entries: at most one entry outside the two shallowest directories keeps the count near 10^5
-            if k == 3 && combo.iter().filter(|&&i| all_entries[i].0.contains('/')).count() > 1 { continue }
             for (oi, omit) in omits.iter().enumerate() { for (mi, mount) in mounts.iter().enumerate() {
                 // (quick used to thin the pairs to a third; the whole product costs under two seconds on tmpfs)
                 for variant in 0..4 {
-                    if k > 2 && variant > 0 && (combo[0] + variant) % 2 == 0 { continue }
                     if !ctx.mine() { continue }
                     if ctx.out_of_time() { return }
                     let c = Config { entries: combo.iter().map(|&i| all_entries[i].clone()).collect(), omit: omit.clone(), mount: mount.to_string(),
@@ -272,7 +269,7 @@ pub fn run(ctx: &mut Ctx) {
     }
     ctx.extra.insert("rule".into(), json!("case = (directory tree on disk, omit_extensions, mount route, variant {plain, sibling param route, symlink to an outside file, files modified/deleted/added after mounting}, request); non-trivial = every case (each request is compared with the path->(bytes,mime) map of the tree); collision = requests built to hit a shortcut: trailing slash / HEAD on a file, traversal and encoded/doubled separators, paths of outside files, requests next to a sibling param route"));
     ctx.extra.insert("bounds".into(), json!({"dirs": DIRS, "files": FILES, "entries_per_tree": max_entries, "omit": omits, "mounts": mounts, "variants": 4,
-        "thinning": if quick { "none (all single entries and all pairs, all variants)" } else { "triples: at most one entry in a depth-2 directory, variants on half of them" }}));
+        "thinning": if quick { "none (all single entries and all pairs, all variants)" } else { "none (all single entries, pairs and triples, all variants)" }}));
     ctx.traces_validated = ctx.transitions;
 }
 
